@@ -15,7 +15,7 @@ func init() {
 	register(&Property{
 		ID:          "C02",
 		Engines:     []string{"cfg"},
-		Explanation: "Inbound delivery, structural part: at each of the three read loops the data callback is guarded by n>0, receives the connection returned by that very read and the buffer re-sliced to [:n] of that read's count (O1); the loops agree on EINTR -> retry, EAGAIN -> leave, other error -> close and leave, short count -> leave, and on the per-event iteration bound (O2); the one-shot read task re-arms on every exit that did not close (O3); the synchronous loop pays every borrowed buffer back before the next borrow or exit (O4); the async gate: counter atomic-only, a task is submitted only when the increment returned 1, the over-count edge undoes its increment, the task returns only when the decrement returned 0 (O5); every buffer that reaches a kernel read is made with a provably positive length (O6); connsUnix has only its three writers and deleteConn's removal is identity-guarded (O7); the UDP session map is looked up and inserted with the same key, sessions are created and announced on the miss edge only (O8). Engine.Start publishes every engine field the poller loops read before it starts the first poller goroutine (O9); the one-shot re-arm registers with the kernel regardless of the isWAdded flag (O10); the count and error of the kernel read travel unchanged through readStream/readUDP, doRead, Read and ReadAndGetConn (O11). Every read of a read loop gets the whole buffer (O12); the short-count exit is taken for stream sockets only (O13); a hang-up event closes only after the synchronous loop, its bound lifted, has read what the peer sent (O14; the asynchronous case is an open known finding).",
+		Explanation: "Inbound delivery, structural part: at each of the three read loops the data callback is guarded by n>0, receives the connection returned by that very read and the buffer re-sliced to [:n] of that read's count (O1); the loops agree on EINTR -> retry, EAGAIN -> leave, other error -> close and leave, short count -> leave, and on the per-event iteration bound (O2); the one-shot read task re-arms on every exit that did not close (O3); the synchronous loop pays every borrowed buffer back before the next borrow or exit (O4); the async gate: counter atomic-only, a task is submitted only when the increment returned 1, the over-count edge undoes its increment, the task returns only when the decrement returned 0 (O5); every buffer that reaches a kernel read is made with a provably positive length (O6); connsUnix has only its three writers and deleteConn's removal is identity-guarded (O7); the UDP session map is looked up and inserted with the same key, sessions are created and announced on the miss edge only (O8). Engine.Start publishes every engine field the poller loops read before it starts the first poller goroutine (O9); the one-shot re-arm registers with the kernel regardless of the isWAdded flag (O10); the count and error of the kernel read travel unchanged through readStream/readUDP, doRead, Read and ReadAndGetConn (O11). Every read of a read loop gets the whole buffer (O12); the short-count exit is taken for stream sockets only (O13); a hang-up event closes only after the synchronous loop, its bound lifted, has read what the peer sent (O14; the asynchronous case hands the hang-up to the read task). Every read task is submitted behind the gate (O16).",
 		NotCovered:  "the lost-edge race of the gate under all schedules, kernel ET/ONESHOT semantics, CPU usage at quiescence, datagram boundaries (kernel), the configuration matrix as executions",
 		Run:         runC02,
 	})
@@ -29,6 +29,8 @@ type readLoop struct {
 	n    ssa.Value
 	err  ssa.Value
 	pbuf ssa.Value
+	// gated: the closure moves the readEvents gate itself
+	gated bool
 }
 
 func (c *Ctx) readLoops() []readLoop {
@@ -54,10 +56,14 @@ func (c *Ctx) readLoops() []readLoop {
 					}
 				}
 			}
+			rl.gated = f.Parent() != nil && len(c.P.Calls(f, func(n string, _ ir.CallSite) bool { return n == "sync/atomic.AddInt32" })) > 0
 			switch {
 			case f.Parent() == nil:
 				rl.name = c.P.FuncName(f) + ": sync read loop"
-			case len(c.P.Calls(f, func(n string, _ ir.CallSite) bool { return n == "sync/atomic.AddInt32" })) > 0:
+			case len(c.P.CallsNamed(f, "(*nbio.Conn).ResetPollerEvent")) > 0:
+				// the task of one-shot mode is the one that sets the event again (it may be gated as well)
+				rl.name = "(*nbio.Conn).AsyncRead: one-shot read task"
+			case rl.gated:
 				rl.name = "(*nbio.Conn).AsyncRead: gated read task"
 			default:
 				rl.name = "(*nbio.Conn).AsyncRead: one-shot read task"
@@ -83,6 +89,7 @@ func runC02(c *Ctx) {
 	c.Rule("C02.O13", "E7", "the short-count exit of a read loop is taken for stream sockets only (a short datagram does not mean the socket is drained)", 3)
 	c.Rule("C02.O14", "E4", "a hang-up event closes the connection only after what the peer sent before it was read: the synchronous loop's per-event bound is lifted under the hang-up flag, and the close is ordered after the read", 2)
 	c.Rule("C02.O15", "E4,E5", "edge-triggered mode reads until EAGAIN: the per-event read bound is lifted under EpollMod == EPOLLET in code that runs when the pollers start (the mode can still be changed after NewEngine), and both the synchronous loop and the read tasks use the lifted bound", 1)
+	c.Rule("C02.O16", "E4", "every read task AsyncRead submits is behind the readEvents gate (in one-shot mode too: a Write that hits EAGAIN re-arms the descriptor while the task is running)", 1)
 	c.Rule("C02.O8", "E4", "udpConn.getConn: same key for lookup and insert; session created, stored and announced on the miss edge only", 2)
 	c02Published(c)
 	c02ETOverride(c)
@@ -470,8 +477,9 @@ func runC02(c *Ctx) {
 						gi := c.P.Info(g)
 						var load ssa.Value
 						for _, ld := range c.P.CallsNamed(g, "sync/atomic.LoadInt32") {
-							if isHungupAddr(ld.Common.Args[0]) && gi.CanReach(ld.In, reads[0].In) {
-								// before the reads of this round: not reachable from the read without going round the outer loop
+							if isHungupAddr(ld.Common.Args[0]) && gi.Dominates(ld.In, reads[0].In) {
+								// before the reads of every round, the first included (with an outer loop a load
+								// behind the reads can reach the next round's read, but does not dominate it)
 								load = ld.Value()
 							}
 						}
@@ -550,26 +558,43 @@ func runC02(c *Ctx) {
 		}
 		if ar := c.Fn("C02.O5", "(*nbio.Conn).AsyncRead"); ar != nil {
 			fi := c.P.Info(ar)
-			var inc *ssa.Call
+			var incs []*ssa.Call
 			for _, cs := range c.P.CallsNamed(ar, "sync/atomic.AddInt32") {
 				if k, ok := ir.ConstInt(cs.Common.Args[1]); ok && k == 1 {
-					inc, _ = cs.In.(*ssa.Call)
+					if call, isCall := cs.In.(*ssa.Call); isCall {
+						incs = append(incs, call)
+					}
 				}
 			}
 			bad := ""
-			if inc == nil {
+			if len(incs) == 0 {
 				bad = "no increment of the gate"
-			} else {
-				// the gated submission
-				for _, cs := range c.P.Calls(ar, func(n string, _ ir.CallSite) bool { return n == "dyn:nbio.Config.IOExecute" }) {
-					if !fi.Dominates(inc, cs.In) {
-						continue // the one-shot submission
-					}
-					_, hi := fi.IntervalAt(cs.In, inc)
-					if hi != 1 {
-						bad = fmt.Sprintf("a read task is submitted when the increment returned up to %d, not only 1: two tasks could read the same connection concurrently", hi)
+			}
+			// the increment that gates a submission: the nearest dominating one
+			gateOf := func(at ssa.Instruction) *ssa.Call {
+				var best *ssa.Call
+				for _, inc := range incs {
+					if fi.Dominates(inc, at) && (best == nil || fi.Dominates(best, inc)) {
+						best = inc
 					}
 				}
+				return best
+			}
+			ungated := ""
+			nSub := 0
+			for _, cs := range c.P.Calls(ar, func(n string, _ ir.CallSite) bool { return n == "dyn:nbio.Config.IOExecute" }) {
+				nSub++
+				inc := gateOf(cs.In)
+				if inc == nil {
+					ungated = c.Pos(cs.In)
+					continue
+				}
+				_, hi := fi.IntervalAt(cs.In, inc)
+				if hi != 1 {
+					bad = fmt.Sprintf("a read task is submitted when the increment returned up to %d, not only 1: two tasks could read the same connection concurrently", hi)
+				}
+			}
+			for _, inc := range incs {
 				// over-count edge undoes
 				for _, i := range fi.Ifs() {
 					cmp, ok := ir.DecodeIntCmp(stripNot(i.Cond))
@@ -591,10 +616,12 @@ func runC02(c *Ctx) {
 					}
 				}
 			}
+			c.Cond(ungated == "" && nSub > 0, "C02.O16", fnKey(c.P, ar, "every read task is submitted behind the gate"), c.FnPos(ar), fmt.Sprintf("%d submission(s), each dominated by an increment of readEvents", nSub),
+				"the read task submitted at "+ungated+" is not behind the readEvents gate: one-shot mode relies on the descriptor staying disabled until the task sets the event again, but a Write that hits EAGAIN re-arms it for reading and writing (Conn.modWrite -> EPOLL_CTL_MOD IN|OUT|ONESHOT) while the task is still running, so the next input starts a second task next to it — two OnData calls of one connection at once, bytes delivered out of order")
 			c.Cond(bad == "", "C02.O5", fnKey(c.P, ar, "gate on submission"), c.FnPos(ar), "submit iff increment == 1; over-count undone", bad)
 		}
 		for _, rl := range loops {
-			if !strings.Contains(rl.name, "gated") {
+			if !rl.gated {
 				continue
 			}
 			fi := c.P.Info(rl.fn)
